@@ -100,7 +100,12 @@ class Constant(Attribute):
                         "The value of an integer constant must be an integer; got %s" % self._value
                     )
             elif isinstance(self._value, _expression.String):
-                as_bytes = self._value.native_value.encode("utf8")
+                try:
+                    as_bytes = self._value.native_value.encode("utf8")
+                except UnicodeEncodeError:  # E.g., a lone surrogate.
+                    raise InvalidConstantValueError(
+                        "A constant string must be exactly one ASCII character long"
+                    ) from None
                 if len(as_bytes) != 1:
                     raise InvalidConstantValueError("A constant string must be exactly one ASCII character long")
 
